@@ -1489,6 +1489,55 @@ class C28(Prop):
                 self.check_object(W, d, o, np, wire, c, tag=("cplx-" if cplx else ""))
                 nv += c.get("val", 0)
         ev.cov["oracle_value_checks_complex_and_api"] = nv
+        # an object that has been used as an operand still denotes what it denoted: B = A + X, A - X, 2*A, A + A, Adjoint(A) ... must
+        # leave the assembled value of A (and of every object built before) as it was
+        nre = 0
+        for k, W, d in self.cases(ctx, (120 if ctx.quick else 2400), 6):
+            kind, o = self.run_case(W, d)
+            if kind != "ok":
+                continue
+            from ufl.classes import BaseForm
+            objs = [x for x in list(self.trace) if isinstance(x, BaseForm)][-4:]
+            try:
+                before = [W.assemble_obj(x, np) for x in objs]
+            except Exception:  # noqa
+                continue
+            rng = random.Random(ctx.seed * 7919 + k)
+            G = DescGen(W)
+            try:
+                X = build_py(W, G.gen(tuple(spec_sig(d)), 1))
+            except Exception:  # noqa
+                X = None
+            for x in objs:
+                for op in ("add", "sub", "smul", "self", "adjoint", "addX2"):
+                    try:
+                        if op == "add" and X is not None:
+                            x + X
+                        elif op == "sub" and X is not None:
+                            x - X
+                        elif op == "smul":
+                            rng.choice([2, -1, 0.5]) * x
+                        elif op == "self":
+                            x + x
+                        elif op == "adjoint":
+                            W.ufl.classes.Adjoint(x)
+                        elif op == "addX2" and X is not None:
+                            (x + X) + X
+                    except Exception:  # noqa
+                        pass
+            try:
+                after = [W.assemble_obj(x, np) for x in objs]
+            except Exception as e:  # noqa
+                self.bad.append(("an object can no longer be assembled after it was used as an operand: %s" % type(e).__name__,
+                                 dict(kind="operand-changed-by-later-operation", desc=desc_str(d)[:300], wire="reuse seed=%d case=%d" % (ctx.seed, k))))
+                continue
+            for b, a in zip(before, after):
+                nre += 1
+                if (b is None) != (a is None) or (b is not None and not same_tensor(b, a, np)):
+                    self.bad.append(("an object denotes another map after it was used as an operand of + / - / scalar * / Adjoint",
+                                     dict(kind="operand-changed-by-later-operation", desc=desc_str(d)[:300], wire="reuse seed=%d case=%d" % (ctx.seed, k))))
+                    break
+        ev.cov["oracle_operand_reuse_checks"] = nre
         out, seen = [], set()
         for w, dd in getattr(self, "bad", []):
             if dd["kind"] in seen:
